@@ -172,6 +172,10 @@ def run(ctx, rep):
     check_number_finite(ctx, rep, "C01.10")
     from .common import check_falsy_zero
     check_falsy_zero(ctx, rep, "C01.7", ['jaqalpaq.generator'], floor_positions=5)
+    # C01.19: the generator writes a let constant by name; int()/float() of a count, index or argument that may be a
+    # constant (Constant has __int__/__float__) decides on, or writes, its declared value instead
+    from .common import check_coercion
+    check_coercion(ctx, rep, "C01.19", {"jaqalpaq.generator.generator"})
     from .c18 import fill_order
     fill_order(ctx, rep, "C01.8", extra=" (the generator prints a gate's arguments as parameters.values(), positionally)")
     for a in SLY_ASSUMPTIONS:
